@@ -48,6 +48,17 @@ def get_component_full_name( c_rtype ):
       return f"{obj.__module__}.{obj.__qualname__}"
     if isinstance( obj, Bits ):
       return f"Bits{obj.nbits}_{int(obj)}"
+    # The elements of a container are named by the same rules (str() of a
+    # list calls repr() on them). A set has no order of its own: str() of a
+    # set of strings changes with the hash seed.
+    if type( obj ) is list:
+      return '[' + ', '.join( get_string(x) for x in obj ) + ']'
+    if type( obj ) is tuple:
+      return '(' + ', '.join( get_string(x) for x in obj ) + ( ',)' if len(obj) == 1 else ')' )
+    if type( obj ) is dict:
+      return '{' + ', '.join( f"{get_string(k)}: {get_string(v)}" for k, v in obj.items() ) + '}'
+    if type( obj ) in ( set, frozenset ):
+      return '{' + ', '.join( sorted( get_string(x) for x in obj ) ) + '}'
     return str( obj )
 
   comp_name = c_rtype.get_name()
